@@ -863,7 +863,7 @@ func (c *checker) runSpace(s *space, opts vroute.PacketOpts, bothL4 bool, dedupe
 		if c.mism.Load() > maxRecorded {
 			return
 		}
-		if c.r.OverBudget(40*time.Minute, 240*time.Minute) { // runaway guard only (a heavily loaded host), never an oracle
+		if c.r.OverBudget(6*time.Minute, 75*time.Minute) { // runaway guard only (a heavily loaded host), never an oracle
 			c.r.CapHit("internal time budget reached inside space " + s.Name)
 			return
 		}
